@@ -29,7 +29,12 @@ func GenerateTOTP(secret string, t time.Time, param *Param) (string, error) {
 		return "", err
 	}
 
-	return deriveRFC4226(secretBuf, TimeCounterFunc(t, param.Period), param.Digits.Int(), param.Algorithm)
+	period := param.Period
+	if period == 0 {
+		period = 30
+	}
+
+	return deriveRFC4226(secretBuf, TimeCounterFunc(t, period), param.Digits.Int(), param.Algorithm)
 }
 
 // GenerateTOTPURL constructs an otpauth:// URL for configuring TOTP-based authenticators (e.g., Google Authenticator).
